@@ -124,7 +124,10 @@ def run(ctx, ck):
         keys_ = {tuple(norm(v_) for v_ in r_[1]) for r_ in rows_}
         if len(keys_) != 1:
             raise AnalysisError('%s: expected one 3-value line, found %d' % (q, len(keys_)))
-        label = ' '.join(x.value for x in ast.walk(f.node) if isinstance(x, ast.Constant) and isinstance(x.value, str))
+        # the literal text around the values: what the function spells out plus what the closed row holds (formats
+        # kept as class-level / module-level constants are part of the row expression)
+        label = ' '.join([x.value for x in ast.walk(f.node) if isinstance(x, ast.Constant) and isinstance(x.value, str)] +
+                         [x.value for r_ in rows_ for x in ast.walk(r_[0]) if isinstance(x, ast.Constant) and isinstance(x.value, str)])
         line = rows_[0][2].lineno if rows_[0][2] is not None else f.node.lineno
         c = prompt_comment(f.module, line)
         node = rows_[0][2] if rows_[0][2] is not None else f.node
@@ -153,7 +156,8 @@ def run(ctx, ck):
     # of (angle, magnitude) handed between loops, helpers and nested functions are looked through)
     from ..symx import SymExec, line_exprs, row_values, canon_k
     n_ang = 0
-    writers = [f for f in m.all_funcs() if 'as_mininec' in f.name]
+    from ..rules import writer_functions
+    writers = writer_functions(ctx, ('as_mininec',))
     wq_ = {f.qual for f in writers if not f.name.startswith('_')}
     seen_ = {}
     for f in sorted(writers, key=lambda x: x.qual):
@@ -161,7 +165,7 @@ def run(ctx, ck):
            f.name.startswith('_'):
             continue
         try:
-            paths_ = SymExec(ctx, f, bind_loops=True, no_expand=wq_ - {f.qual}, max_paths=5000).run()
+            paths_ = SymExec(ctx, f, bind_loops=True, no_expand=wq_ - {f.qual}, max_paths=5000, depth=4).run()
         except AnalysisError:
             continue
         for p_ in paths_:
@@ -186,6 +190,8 @@ def run(ctx, ck):
                         if isinstance(x_, ast.Attribute) and x_.attr in ('T', 'flat'):
                             return linear_angles(x_.value)
                         return []
+                    from ..symx import unwrap_formatted
+                    v_ = unwrap_formatted(v_)       # format_float((a, b))[1].ljust(w) prints b
                     angs = linear_angles(v_)
                     if not angs:
                         continue
@@ -209,7 +215,7 @@ def run(ctx, ck):
     # decided on the symbolic walk of the writers (private helpers, tables, generators looked through;
     # the public writers of other classes stay calls): on every path the count that is announced is the
     # number of blocks that follow
-    from ..symx import SymExec, canon_k
+    from ..symx import SymExec, canon_k, unwrap_formatted
     from ..lines import printed_value, lines_with_loops, default_none_env, ranges_over
     w = m.func('mininec.Mininec.as_basic_input')
     bq = {g_.qual for g_ in m.all_funcs() if g_.name == 'as_basic_input'}
@@ -282,9 +288,21 @@ def run(ctx, ck):
             return False
         v0 = printed_value(blk[0]) if printed_value(blk[0]) is not None else blk[0]
         head = (isinstance(v0, ast.Constant) and str(v0.value) == '1') if first_kind == 'one' else norm(v0) == 'self.n_segments'
-        coords = all(isinstance(b_, ast.BinOp) and isinstance(b_.op, ast.Mod) and isinstance(b_.left, ast.Constant)
-                     and isinstance(b_.left.value, str) and b_.left.value.count('%') == 3 for b_ in blk[1:3])
-        rad = isinstance(blk[3], ast.BinOp) and isinstance(blk[3].op, ast.Mod) and norm(blk[3].right) in ('self.r', '(self.r,)')
+        from ..symx import fold_text
+
+        def fmt_of(b_):
+            """the format text of `fmt % args` (a literal, or a constant expression that folds to one)"""
+            if not (isinstance(b_, ast.BinOp) and isinstance(b_.op, ast.Mod)):
+                return None
+            try:
+                t_ = fold_text(b_.left)
+            except ValueError:
+                return None
+            return t_ if isinstance(t_, str) else None
+        coords = all(fmt_of(b_) is not None and fmt_of(b_).count('%') == 3 for b_ in blk[1:3])
+        rad = fmt_of(blk[3]) is not None and norm(blk[3].right) in ('self.r', '(self.r,)')
+        v0 = unwrap_formatted(v0)
+        head = (isinstance(v0, ast.Constant) and str(v0.value) == '1') if first_kind == 'one' else norm(v0) == 'self.n_segments'
         return head and coords and rad and isinstance(blk[4], ast.Constant) and blk[4].value == 'N'
     ok = bool(gp)
     shapes = []
